@@ -368,6 +368,23 @@ func (f *Frame) runRegion(reach string, heap *Heap, rg *region) {
 			if isBackEdge(b, s) {
 				f.backEdge(f.loops[s.Index], b, ec)
 			}
+			// `atexit` clauses of the loops this edge leaves
+			if f.top {
+				for _, li := range f.loops {
+					if li == nil || li.spec == nil || len(li.spec.AtExit) == 0 || !li.blocks[b.Index] || li.blocks[s.Index] {
+						continue
+					}
+					for i, c := range li.spec.AtExit {
+						env := f.specEnv(f.heap, nil, nil)
+						t, err := env.evalBool(c.Expr)
+						if err != nil {
+							e.unsupp(fmt.Sprintf("%s atexit %d: %v", f.loopTag(li), i, err))
+							continue
+						}
+						e.addObl("loop.exit", f.loopTag(li)+":"+clauseLabel(c, i), ec, t, last.Pos(), c.Src, clauseProps(c, f.props()))
+					}
+				}
+			}
 		}
 	}
 }
